@@ -13,7 +13,8 @@ from .. import camx_lib as cl
 from . import c09
 
 FORMATS = ('uamiv', 'lateral_boundary', 'temperature', 'wind', 'humidity', 'vertical_diffusivity', 'one3d',
-           'height_pressure')
+           'height_pressure', 'cloud_rain')
+HEADERLESS = ('temperature', 'wind', 'humidity', 'vertical_diffusivity', 'one3d', 'height_pressure')
 CHUNK = 384
 
 
@@ -37,6 +38,11 @@ def file_descs(tier):
                 variants.append(dict(base, name=1, shape=[3, 2, 1], nsteps=2, hdr_nz0=True))
             if fmt == 'wind':
                 variants.append(dict(base, hdr8=True, nsteps=3))
+            if fmt == 'cloud_rain':
+                variants.append(dict(base, crv3=True, nsteps=3))
+                variants.append(dict(base, crv3=True, nsteps=2, shape=[2, 2, 1]))
+        if fmt == 'cloud_rain':
+            variants.append(dict(base, crv3=True, nsteps=2))
         seen = set()
         for v in variants:
             k = repr(sorted(v.items(), key=str))
@@ -56,7 +62,7 @@ def structure(raw, r):
         pos += 8 + n
     fmt = r['fmt']
     n = len(r['steps'])
-    hdr = {'uamiv': 4, 'lateral_boundary': 8}.get(fmt, 0)
+    hdr = {'uamiv': 4, 'lateral_boundary': 8, 'cloud_rain': 1}.get(fmt, 0)
     per = (len(recs) - hdr) // n
     # a step is complete when its last DATA record is complete (the wind format
     # appends a 4-byte dummy record that carries no data)
@@ -94,12 +100,16 @@ class Prop(c09.Prop):
         'accepted outcomes for a prefix: an exception, or a file whose dimensions other than TSTEP equal the full '
         'file\'s, whose step count s does not exceed the number of steps completely contained in the prefix, and '
         'whose first s steps of every variable and of TFLAG/ETFLAG are bit-identical to the full file\'s',
+        'cloud/rain files carry no variable count (3 before CAMx 4.3, 5 since): a prefix that the reference decoder '
+        'reads, with no byte left over, as a complete file of the other flavour may be presented as exactly that file',
         'each prefix read runs under a 0.5 s alarm (a normal read takes ~1 ms); a hang is reported as no-termination',
     ]
 
     def bounds(self, tier):
         ds = file_descs(tier)
-        return {'files': len(ds), 'formats': FORMATS, 'chunk': CHUNK}
+        return {'files': len(ds), 'formats': FORMATS + ('landuse',), 'chunk': CHUNK,
+                'landuse_files': len([d for d in camx_u.landuse_descs(tier) if d['payload'] == 'ramp' and
+                                      tuple(d['shape']) in ((3, 2), (1, 1), (2, 2))])}
 
     def groups(self, tier):
         for d in file_descs(tier):
@@ -110,9 +120,72 @@ class Prop(c09.Prop):
                 if d['fmt'] in ('uamiv', 'lateral_boundary') and d.get('nsteps', 0) >= 2:
                     # the documented update mode: numpy.memmap may EXTEND a short file
                     yield {'desc': d, 'lo': a, 'hi': min(size, a + CHUNK), 'mode': 'r+'}
+        for d in camx_u.landuse_descs(tier):
+            if d['payload'] != 'ramp' or tuple(d['shape']) not in ((3, 2), (1, 1), (2, 2)):
+                continue
+            size = len(rf.enc_landuse(camx_u.materialize_landuse(d)))
+            for a in range(0, size, CHUNK):
+                yield {'desc': d, 'lo': a, 'hi': min(size, a + CHUNK)}
 
     def expand(self, group):
         yield group
+
+    def run_landuse(self, g):
+        d = g['desc']
+        r = camx_u.materialize_landuse(d)
+        raw = rf.enc_landuse(r)
+        p = self.path('cut')
+        scope0 = dict(fmt='landuse', mode='r', shape='x'.join(str(x) for x in d['shape']), nsteps=0,
+                      style=d['style'], others='+'.join(d['others']) or 'none')
+        vs = []
+        outcomes = {}
+        ntrans = 0
+        for cut in range(g['hi'] - 1, g['lo'] - 1, -1):
+            with open(p, 'wb') as fh:
+                fh.write(raw[:cut])
+            ntrans += 1
+            signal.setitimer(signal.ITIMER_REAL, 0.5)
+            try:
+                f = cl.open_lu(p, r)
+                data = {k: np.array(np.asarray(f.variables[k][...])) for k in f.variables.keys()}
+                nland = len(f.dimensions['LANDUSE'])
+                del f
+                signal.setitimer(signal.ITIMER_REAL, self.HORIZON)
+            except core.Timeout:
+                signal.setitimer(signal.ITIMER_REAL, self.HORIZON)
+                outcomes['hang'] = outcomes.get('hang', 0) + 1
+                vs.append(viol('no-termination', ('truncated', 'landuse', 'any'), 'prefix of %d/%d bytes: reader did '
+                               'not return within 0.5 s' % (cut, len(raw)), cutclass='any', **scope0))
+                continue
+            except Exception:
+                signal.setitimer(signal.ITIMER_REAL, self.HORIZON)
+                outcomes['raised'] = outcomes.get('raised', 0) + 1
+                gc.collect()
+                continue
+            gc.collect()
+            # opened silently: fine only if the prefix is itself a complete land-use file and is shown as such
+            ok = False
+            try:
+                alt = rf.dec_landuse(raw[:cut], r['ny'], r['nx'])
+                exp = cl.lu_expected(alt)
+                ok = nland == alt['nland'] and list(data) == [k for k, a in exp] and \
+                    all(cl.bits_equal(data[k], a) for k, a in exp)
+            except rf.LayoutError:
+                ok = False
+            if ok:
+                outcomes['valid-shorter-file'] = outcomes.get('valid-shorter-file', 0) + 1
+            else:
+                outcomes['misread'] = outcomes.get('misread', 0) + 1
+                vs.append(viol('incomplete-file-exposed', ('truncated', 'landuse', d['style']),
+                               'prefix of %d/%d bytes opened silently with variables %r' % (cut, len(raw), list(data)),
+                               cutclass='any', **scope0))
+        fid = h64('c14', sorted(d.items(), key=str))
+        res = result('viol' if vs else 'ok', vs, [h64(raw)] + [h64(fid, c) for c in range(g['lo'], g['hi'])],
+                     ntrans, [h64(fid, c) for c in range(max(g['lo'], 1), g['hi'])],
+                     h64(repr(sorted(outcomes.items()))))
+        res['n'] = ntrans
+        res['outcomes'] = outcomes
+        return res
 
     def read_all(self, fmt, path, r, mode='r'):
         if mode == 'r':
@@ -126,8 +199,45 @@ class Prop(c09.Prop):
         del f
         return dims, data
 
+    def other_version(self, prefix, dims, data):
+        """cloud/rain files carry no variable count: a prefix of a five-variable file can be a complete
+        three-variable file.  Accepted iff the reference decoder reads the prefix as such a file with no byte
+        left over and the library presents exactly that file."""
+        try:
+            alt = rf.dec_cloud_rain(prefix)
+        except rf.LayoutError:
+            return False
+        if not alt['times']:
+            return False
+        alt['fmt'] = 'cloud_rain'
+        alt['steps'] = alt['times']
+        n = len(alt['times'])
+        if (dims.get('TSTEP'), dims.get('LAY'), dims.get('ROW'), dims.get('COL')) != (n, alt['nz'], alt['ny'], alt['nx']):
+            return False
+        names = cl.varnames(alt)
+        if sorted(k for k in data if 'FLAG' not in k) != sorted(names):
+            return False
+        for nm in names:
+            if not cl.bits_equal(data[nm], cl.expected_var(alt, nm)):
+                return False
+        plausible = all(0 <= hhmm <= 2400 and 1 <= idate % 1000 <= 366 and 0 <= idate < 100000
+                        for hhmm, idate in alt['times'])
+        if 'TFLAG' in data and plausible:
+            # (when a grid has two cells a data record is as long as a time record and the decoded
+            # stamps can be arbitrary bit patterns: no particular flags are demanded for those)
+            want = []
+            for hhmm, idate in alt['times']:
+                yy, jjj = divmod(idate % 100000, 1000)
+                want.append(((1900 + yy if yy >= 70 else 2000 + yy) * 1000 + jjj, int(round(hhmm)) * 100))
+            got = [tuple(int(x) for x in row) for row in data['TFLAG'][:, 0, :]]
+            if got != want:
+                return False
+        return True
+
     def run_one(self, g):
         d = g['desc']
+        if d['fmt'] == 'landuse':
+            return self.run_landuse(g)
         r = camx_u.materialize(d)
         fmt = d['fmt']
         raw = camx_u.encode(r)
@@ -172,7 +282,7 @@ class Prop(c09.Prop):
             gc.collect()
             problems = []
             s = dims.get('TSTEP', 0)
-            if fmt in camx_u.MET and cut < step_ends[0] and cls in ('record-boundary', 'step-boundary') and s == 1:
+            if fmt in HEADERLESS and cut < step_ends[0] and cls in ('record-boundary', 'step-boundary') and s == 1:
                 # these formats have no header: a cut on a record boundary inside the first step
                 # IS a valid file with fewer layers; accept it iff it shows exactly those layers
                 ok = True
@@ -205,6 +315,10 @@ class Prop(c09.Prop):
                         problems.append((what, '%s: shape %r vs %r; %s vs %s' % (k, got.shape, want.shape,
                                                                                  got.ravel()[:4], want.ravel()[:4])))
                         break
+            if problems and fmt == 'cloud_rain' and self.other_version(raw[:cut], dims, data):
+                # the prefix is byte for byte a complete file of the older three-variable flavour
+                outcomes['valid-other-version-file'] = outcomes.get('valid-other-version-file', 0) + 1
+                continue
             if problems:
                 outcomes['misread'] = outcomes.get('misread', 0) + 1
                 c, det = problems[0]
